@@ -67,6 +67,8 @@ structure PClient where
   ignLog : Bool
   ignStat : Bool
   ips : List Bytes
+  /-- addresses configured with an IPv6 zone, e.g. fe80::1%eth0: (address, zone) -/
+  zips : List (Bytes × Bytes) := []
   nets : List Prefix
   macs : List Bytes
   cids : List Bytes
@@ -151,21 +153,31 @@ def storageFind (cs : List PClient) (ls : Leases) (id : QID) : Option PClient :=
     | .ip a => (macByIP ls a).bind (byMAC cs)
     | .cid _ => none
 
+/-- `index.findByIPWithoutZone(ip)`: a client holding the address under some zone
+(the unzoned holders were found by `index.find` already).  With the same address
+under two zones in different clients the real result is indeterminate (map
+order); the model takes the first. -/
+def byIPZoned (cs : List PClient) (a : Bytes) : Option PClient :=
+  cs.find? (fun c => c.zips.any (·.1 == a))
+
 /-- `Storage.FindLoose(ip, id)` where `ip` is `netip.ParseAddr(id)` (the zero
-address for a ClientID). -/
+address for a ClientID): `index.find`, the DHCP MAC, then the address without
+zone. -/
 def storageFindLoose (cs : List PClient) (ls : Leases) (id : QID) : Option PClient :=
-  (indexFind cs id).orElse fun _ =>
+  (storageFind cs ls id).orElse fun _ =>
     match id with
-    | .ip a => ((macByIP ls a).bind (byMAC cs)).orElse fun _ => byIP cs a
+    | .ip a => byIPZoned cs a
     | .cid _ => none
 
-/-- `clientsContainer.shouldCountClient(ids)` -/
-def shouldCountClient (cs : List PClient) (ls : Leases) : List QID → Bool
+/-- `clientsContainer.shouldCountClient(ids)`.  `loose = false` is the code as it
+is (`Storage.Find`); `loose = true` the prepared repair
+(fixes/c08/zoned_client_stats.patch: `FindLoose`, like the query log). -/
+def shouldCountClient (loose : Bool) (cs : List PClient) (ls : Leases) : List QID → Bool
   | [] => true
   | id :: rest =>
-    match storageFind cs ls id with
+    match (if loose then storageFindLoose cs ls id else storageFind cs ls id) with
     | some c => !c.ignStat
-    | none => shouldCountClient cs ls rest
+    | none => shouldCountClient loose cs ls rest
 
 /-- `clientsContainer.findMultiple(ids)`, reduced to what `ShouldLog` and the
 search read: `some flag` when a persistent client was found.  (Runtime clients
@@ -189,6 +201,8 @@ structure Conf where
   ignS : List Bytes
   clients : List PClient
   leases : Leases
+  /-- the tree carries fixes/c08/zoned_client_stats.patch -/
+  fixZone : Bool := false
   deriving Repr
 
 /-- One query-log record: normalized name, canonical stored address, ClientID. -/
@@ -214,6 +228,12 @@ structure State where
   sClients : List (Key × Nat)
   /-- current unit: requests per domain -/
   sDomains : List (Bytes × Nat)
+  /-- stats.db: the client tables of the finished units, concatenated -/
+  dClients : List (Key × Nat) := []
+  /-- stats.db: the domain tables of the finished units, concatenated -/
+  dDomains : List (Bytes × Nat) := []
+  /-- querylog.json.1 exists (the harness drives `rotate` once per history) -/
+  rotated : Bool := false
   deriving Repr
 
 structure Query where
@@ -221,6 +241,8 @@ structure Query where
   qtype : Nat
   addr : Bytes
   cid : Bytes
+  /-- IPv6 zone of the peer address; `netip.Addr.AsSlice` drops it, nothing reads it -/
+  zone : Bytes := []
   deriving Repr
 
 def typeANY : Nat := 255
@@ -240,7 +262,7 @@ def shouldLog (c : Conf) (host : Bytes) (qt : Nat) (ids : List QID) : Bool :=
 
 /-- `(*StatsCtx).ShouldCount` -/
 def shouldCount (c : Conf) (host : Bytes) (ids : List QID) : Bool :=
-  if !shouldCountClient c.clients c.leases ids then false else !Ignore.has c.ignS host
+  if !shouldCountClient c.fixZone c.clients c.leases ids then false else !Ignore.has c.ignS host
 
 /-- map[k]++ on an association list. -/
 def bump {α : Type} [BEq α] (m : List (α × Nat)) (k : α) : List (α × Nat) :=
@@ -298,6 +320,8 @@ inductive CID where
   | net (a : Bytes) (bits : Nat)
   | mac (m : Bytes)
   | cid (c : Bytes)
+  /-- an address with an IPv6 zone -/
+  | zip (a : Bytes) (zone : Bytes)
   deriving Repr
 
 structure ClientObj where
@@ -311,6 +335,7 @@ structure ClientObj where
 def ClientObj.toPersistent (o : ClientObj) : PClient :=
   { name := o.name, ignLog := o.ignLog, ignStat := o.ignStat,
     ips := o.ids.filterMap (fun | .ip a => some a | _ => none),
+    zips := o.ids.filterMap (fun | .zip a z => some (a, z) | _ => none),
     nets := o.ids.filterMap (fun | .net a b => some ⟨a, b⟩ | _ => none),
     macs := o.ids.filterMap (fun | .mac m => some m | _ => none),
     cids := o.ids.filterMap (fun | .cid c => some (lower c) | _ => none) }
@@ -319,7 +344,7 @@ def ClientObj.toPersistent (o : ClientObj) : PClient :=
 def clashes (cs : List PClient) (c : PClient) : Bool :=
   cs.any fun p =>
     p.name == c.name ||
-    c.cids.any p.cids.contains || c.ips.any p.ips.contains ||
+    c.cids.any p.cids.contains || c.ips.any p.ips.contains || c.zips.any p.zips.contains ||
     c.nets.any p.nets.contains || c.macs.any p.macs.contains
 
 /-- `NewStorage` with `InitialClients`: `none` when an `Add` reports a clash. -/
@@ -336,12 +361,14 @@ structure ResetArgs where
   ignS : List Bytes
   clients : List ClientObj
   leases : Leases
+  fixZone : Bool := false
   deriving Repr
 
 def reset (a : ResetArgs) : Option State :=
   (addAll [] (a.clients.map ClientObj.toPersistent)).map fun cs =>
     { conf := { anon := a.anon, refuseAny := a.refuseAny, qlogOn := a.qlogOn, statsOn := a.statsOn,
-                ignQ := a.ignQ, ignS := a.ignS, clients := cs, leases := a.leases },
+                ignQ := a.ignQ, ignS := a.ignS, clients := cs, leases := a.leases,
+                fixZone := a.fixZone },
       mem := [], file := [], sClients := [], sDomains := [] }
 
 /-- `Storage.Update` with the same identifiers and new flags: the client is
@@ -366,6 +393,12 @@ inductive Op where
   | rmClient (name : Bytes)
   | search
   | stats
+  /-- the unit-id clock moves on one hour and `(*StatsCtx).flush` runs -/
+  | tick
+  /-- shutdown (log buffer flushed, current unit stored) and start on the same directory -/
+  | restart
+  /-- `(*queryLog).rotate`, driven at most once per history -/
+  | rotate
   deriving Repr
 
 /-- What an operation shows. -/
@@ -376,6 +409,16 @@ inductive Out where
   | flushed (mem file : List Entry)
   | found (r : List Entry)
   | report (sClients : List (Key × Nat)) (sDomains : List (Bytes × Nat))
+  /-- raw stats.db tables (all buckets), then the current unit -/
+  | ticked (kc : List (Key × Nat)) (kd : List (Bytes × Nat))
+      (sClients : List (Key × Nat)) (sDomains : List (Bytes × Nat))
+  /-- memory buffer, raw log file(s), raw stats.db tables, current unit — after the restart -/
+  | restarted (mem file : List Entry) (kc : List (Key × Nat)) (kd : List (Bytes × Nat))
+      (sClients : List (Key × Nat)) (sDomains : List (Bytes × Nat))
+  /-- the rotation happened; raw log file(s) -/
+  | rotated (file : List Entry)
+  | rotateSkipped
+  | rotateNoFile
   deriving Repr
 
 /-- The id `topClientPairs` hands to `shouldCountClient` for a stored client key. -/
@@ -387,8 +430,15 @@ def Key.qid : Key → QID
 domains are filtered with the CURRENT statistics ignore list, the top clients
 with the CURRENT client flag (looked up by the stored key). -/
 def statsReport (s : State) : Out :=
-  .report (s.sClients.filter (fun kv => shouldCountClient s.conf.clients s.conf.leases [kv.1.qid]))
-    (s.sDomains.filter (fun kv => !Ignore.has s.conf.ignS kv.1))
+  .report ((s.dClients ++ s.sClients).filter
+      (fun kv => shouldCountClient s.conf.fixZone s.conf.clients s.conf.leases [kv.1.qid]))
+    ((s.dDomains ++ s.sDomains).filter (fun kv => !Ignore.has s.conf.ignS kv.1))
+
+/-- `(*StatsCtx).flush` after the clock moved on: the current unit is stored in
+its bucket and an empty unit starts. -/
+def tick (s : State) : State :=
+  { s with dClients := s.dClients ++ s.sClients, dDomains := s.dDomains ++ s.sDomains,
+           sClients := [], sDomains := [] }
 
 def step (s : State) : Op → State × Out
   | .query q =>
@@ -411,6 +461,19 @@ def step (s : State) : Op → State × Out
     | none => (s, .noClient)
   | .search => (s, .found (search s))
   | .stats => (s, statsReport s)
+  | .tick =>
+    let s' := tick s
+    (s', .ticked s'.dClients s'.dDomains s'.sClients s'.sDomains)
+  | .restart =>
+    -- Shutdown flushes the buffer; Close stores the current unit in its bucket,
+    -- New loads it again; configuration and clients come back from the config file.
+    let s' := flush s
+    (s', .restarted s'.mem s'.file (s'.dClients ++ s'.sClients) (s'.dDomains ++ s'.sDomains)
+      s'.sClients s'.sDomains)
+  | .rotate =>
+    if s.rotated then (s, .rotateSkipped)
+    else if s.file.isEmpty then (s, .rotateNoFile)
+    else ({ s with rotated := true }, .rotated s.file)
 
 def run (s : State) : List Op → State
   | [] => s
